@@ -619,6 +619,47 @@ theorem exec_outside (v : Variant) (cfg : Config) (env : StyleEnv σ) (ops : Lis
     rw [hf2, hf1, List.map_cons, List.append_assoc, ← written_append]
     rfl
 
+/-- Operations other than begin/end capture never touch the capture marks. -/
+theorem checkBuffer_marks (v : Variant) (cfg : Config) (env : StyleEnv σ) (s : State σ) :
+    (checkBuffer v cfg env s).marks = s.marks := by
+  unfold checkBuffer; split <;> rfl
+
+theorem step_marks (v : Variant) (cfg : Config) (env : StyleEnv σ) (s : State σ) (op : Op σ)
+    (hop : isCapture op = false) : (step v cfg env s op).1.marks = s.marks := by
+  have hctl : ∀ codes, (Console.control v cfg env s codes).marks = s.marks := by
+    intro codes
+    unfold Console.control
+    split
+    · rw [checkBuffer_marks]
+    · rfl
+  cases op with
+  | print segs => simp only [step]; rw [checkBuffer_marks]
+  | line count =>
+    simp only [step]
+    split
+    · rw [checkBuffer_marks]
+    · rfl
+  | control codes => exact hctl codes
+  | bell => exact hctl _
+  | clear home => exact hctl _
+  | showCursor sh =>
+    simp only [step]
+    split
+    · exact hctl _
+    · rfl
+  | beginCapture => simp [isCapture] at hop
+  | endCapture => simp [isCapture] at hop
+  | exportText clr styles => simp only [step]; split <;> rfl
+  | exportHtml clr inline o => simp only [step]; split <;> rfl
+
+theorem exec_marks (v : Variant) (cfg : Config) (env : StyleEnv σ) (ops : List (Op σ)) (s : State σ)
+    (hops : ops.all (fun op => !isCapture op) = true) : (exec v cfg env ops s).marks = s.marks := by
+  induction ops generalizing s with
+  | nil => rfl
+  | cons op ops ih =>
+    simp only [List.all_cons, Bool.and_eq_true, Bool.not_eq_true'] at hops
+    rw [exec_cons, ih _ hops.2, step_marks v cfg env s op hops.1]
+
 /-! ## reachable states -/
 
 /-- Capture blocks are never closed more often than opened (`d` = current depth). -/
